@@ -4,6 +4,7 @@
 mod common;
 mod run_bfv;
 mod run_bitvec;
+mod run_gf2;
 mod run_lender;
 mod run_ranksel;
 mod run_rcl;
@@ -73,6 +74,8 @@ fn main() {
         ("sigstore", Some(l)) => run_sigstore::replay(&mut ctx, l),
         ("rcl", None) => run_rcl::run(&mut ctx),
         ("rcl", Some(l)) => run_rcl::replay(&mut ctx, l),
+        ("gf2", None) => run_gf2::run(&mut ctx),
+        ("gf2", Some(l)) => run_gf2::replay(&mut ctx, l),
         ("bfv", None) => run_bfv::run(&mut ctx),
         ("bfv", Some(l)) => run_bfv::replay(&mut ctx, l),
         (r, _) => {
